@@ -165,6 +165,28 @@ def poll_rule(F, R, rule):
         q1_poll(F, P, M, b, roles, byrole)
 
 
+@shared_rule
+def pop_readd_rule(F, R, rule):
+    """Q1's obligations for drivers that pop and re-add their own event buffers (input) under another rule id: every return after a
+    successful pop has re-posted the buffer under the same token."""
+    M = model(F)
+    M.require_rings()
+    roles = C05.classify_api(C05.queue_api(F, M))
+    byrole = {}
+    for k, v in roles.items():
+        byrole.setdefault(v, []).append(k)
+    reached = roles_reached(F, roles)
+    stocked = set(b.get('impl_adt') for b in F.bodies.values() if F.handwritten(b) and b['kind'] == 'AssocFn' and has_loop(b)
+                  and '-> core::result::Result<' + (b.get('impl_adt') or '?') in b.get('sig', '') and 'add' in reached.get(b['id'], set()))
+    stocked.discard(None)
+    P = RuleProxy(R, {'Q1': rule})
+    for b in F.bodies.values():
+        if not F.handwritten(b) or b['kind'] != 'AssocFn' or b.get('impl_adt') in (M.queue_adt, M.owning_adt) or not b.get('pub'):
+            continue
+        if {'peek_used', 'pop_used', 'add'} <= reached.get(b['id'], set()) and b.get('impl_adt') in stocked:
+            q1_pop_readd(F, P, M, b, roles, byrole)
+
+
 def buffer_slot_terms(t):
     """Index/slot selections inside a buffer operand: get_mut(buffers, idx) calls and loc index projections."""
     out = []
